@@ -554,6 +554,21 @@ func runC04(c *Ctx, r *Report) {
 					}
 				}
 			})
+			// or a helper that writes the bytes it is given to State.Out on every path
+			if write == nil {
+				eachInstr(fn, func(in ssa.Instruction) {
+					call, ok := in.(*ssa.Call)
+					if !ok || call.Common().IsInvoke() {
+						return
+					}
+					callee := call.Common().StaticCallee()
+					for i, a := range call.Common().Args {
+						if a == out && callee != nil && isModuleSSA(callee) && c.writesParamToOut(callee, i) {
+							write = call
+						}
+					}
+				})
+			}
 			okReplay := false
 			if write != nil {
 				// the write is skipped only when len(out) is 0
